@@ -615,13 +615,28 @@ pub fn fam_optimise(seed: u64, tier: &str, index: u64) -> Scenario {
     } else {
         g.some_int_view()
     };
+    let lus = g.rng.gen_bool(0.5);
     g.steps.push(Step::Optimise {
         br,
         maximise: g.rng.gen_bool(0.5),
-        lus: g.rng.gen_bool(0.5),
+        lus,
         obj,
         stop_at: None,
     });
+    // a second optimisation on the same solver (another objective, direction, procedure). Only
+    // after LinearUnsatSat: LinearSatUnsat leaves its bound behind (known finding F2), after which
+    // a second optimum is no longer one of the model the user posted.
+    if lus && g.rng.gen_bool(0.4) {
+        let br = g.random_brancher();
+        let obj = g.some_int_view();
+        g.steps.push(Step::Optimise {
+            br,
+            maximise: g.rng.gen_bool(0.5),
+            lus: g.rng.gen_bool(0.5),
+            obj,
+            stop_at: None,
+        });
+    }
     let opts = g.random_opts();
     Scenario {
         fam: "optimise".into(),
@@ -1103,15 +1118,38 @@ pub fn fam_proof(seed: u64, tier: &str, index: u64) -> Scenario {
         "lin_le", "lin_eq", "lin_ne", "bin_le", "bin_lt", "bin_eq", "bin_ne", "plus", "times", "div",
         "abs", "max", "min", "element", "alldiff", "cumulative", "bool_lin_le", "bool_lin_eq",
     ];
-    let optimise = index % 3 != 0;
+    let optimise = index % 3 != 0 && index % 6 != 5;
     let mut tag = 0u32;
     let mut post = |g: &mut Gen, c: Cons| {
         tag += 1;
         g.cons.push(c.clone());
         g.steps.push(Step::Post { c, tag: Some(tag) });
     };
-    let style = g.rng.gen_range(0..3);
-    if style == 0 {
+    // constraints of the chosen style are posted only after every variable has been declared (no
+    // variable can be created once posting has made the solver infeasible)
+    let mut pending: Vec<Cons> = vec![];
+    let style = if index % 6 == 5 { 3 } else { g.rng.gen_range(0..3) };
+    if style == 3 {
+        // a predicate literal pruned through disequalities: x in 0..2k-1, y in 0..1, b <-> [x >= k],
+        // b # y (or b + y # 1), and two inequalities tying x to y so that search is needed
+        let k = g.rng.gen_range(2..=4);
+        let x = g.add_int_var_with((0..2 * k).collect(), false);
+        let y = g.add_int_var_with(vec![0, 1], false);
+        let _ = g.add_lit();
+        let b = g.next_index();
+        g.vars.push(VarInfo { v: b, vals: vec![0, 1], lit: true });
+        let p = Pred { x: View::var(x), op: if g.rng.gen_bool(0.7) { Op::Ge } else { Op::Le }, k };
+        g.steps.push(Step::NewLitPred { p });
+        if g.rng.gen_bool(0.5) {
+            post(&mut g, Cons::LinNe { terms: vec![View::var(b), View { v: y, s: -1, o: 0 }], rhs: 0 });
+        } else {
+            post(&mut g, Cons::LinNe { terms: vec![View::var(b), View::var(y)], rhs: 1 });
+        }
+        let lo = g.rng.gen_range(0..=1);
+        post(&mut g, Cons::LinLe { terms: vec![View { v: x, s: -1, o: 0 }, View { v: y, s: k, o: 0 }], rhs: -lo });
+        let hi = k - 1 - g.rng.gen_range(0..=1);
+        post(&mut g, Cons::LinLe { terms: vec![View::var(x), View { v: y, s: -k, o: 0 }], rhs: hi });
+    } else if style == 0 {
         // pigeon-hole flavoured: n variables over w values, pairwise different (binary or global)
         let w = g.rng.gen_range(2..=3);
         let n = if optimise { w } else { w + 1 };
@@ -1119,11 +1157,11 @@ pub fn fam_proof(seed: u64, tier: &str, index: u64) -> Scenario {
         let xs: Vec<u32> = (0..n).map(|_| g.add_int_var_with((lo..lo + w).collect(), false)).collect();
         let _ = g.add_lit();
         if g.rng.gen_bool(0.5) {
-            post(&mut g, Cons::Alldiff { xs: xs.iter().map(|v| View::var(*v)).collect() });
+            pending.push(Cons::Alldiff { xs: xs.iter().map(|v| View::var(*v)).collect() });
         } else {
             for i in 0..xs.len() {
                 for j in i + 1..xs.len() {
-                    post(&mut g, Cons::BinNe { a: View::var(xs[i]), b: View::var(xs[j]) });
+                    pending.push(Cons::BinNe { a: View::var(xs[i]), b: View::var(xs[j]) });
                 }
             }
         }
@@ -1149,6 +1187,33 @@ pub fn fam_proof(seed: u64, tier: &str, index: u64) -> Scenario {
     } else {
         None
     };
+    // a literal that stands for a predicate (`new_literal_for_predicate`; the proof substitutes the
+    // predicate for it), used as a 0-1 integer in linear constraints
+    if style != 3 && g.rng.gen_range(0..3) == 0 {
+        let x = View::var(*g.int_vars().choose(&mut g.rng).unwrap());
+        let mut p = g.pred_on(x);
+        p.op = *[Op::Ge, Op::Le, Op::Eq, Op::Ne].choose(&mut g.rng).unwrap();
+        let v = g.next_index();
+        g.vars.push(VarInfo { v, vals: vec![0, 1], lit: true });
+        g.steps.push(Step::NewLitPred { p });
+        let y = View::var(*g.int_vars().choose(&mut g.rng).unwrap());
+        let lit = View::var(v);
+        let c = match g.rng.gen_range(0..10) {
+            // (a linear inequality cites the initial bound [lit >= 0] in its reasons: known finding F37)
+            0 => Cons::LinLe { terms: vec![View { v, s: g.rng.gen_range(1..=3), o: 0 }, y], rhs: g.rng.gen_range(0..=2) },
+            1..=5 => Cons::LinNe { terms: vec![lit, View { v: y.v, s: -1, o: 0 }], rhs: g.rng.gen_range(-1..=1) },
+            _ => {
+                let kind = *["lin_le", "bin_ne", "lin_ne", "alldiff"].choose(&mut g.rng).unwrap();
+                let inner = g.cons_of_kind(kind);
+                let r = if g.rng.gen_bool(0.5) { lit } else { View { v, s: -1, o: 1 } };
+                Cons::Imp { r, c: Box::new(inner) }
+            }
+        };
+        post(&mut g, c);
+    }
+    for c in pending {
+        post(&mut g, c);
+    }
     let ncons = g.rng.gen_range(1..=4);
     for _ in 0..ncons {
         let k = *kinds.choose(&mut g.rng).unwrap();
@@ -1238,7 +1303,10 @@ pub fn build_dense_model(g: &mut Gen, tier: &str) {
         let vals: Vec<i32> = (lo + shift..lo + shift + w).collect();
         let _ = g.add_int_var_with(vals, false);
     }
-    let nl = g.rng.gen_range(0..=2);
+    // a third of the models get a (half-)reified element: its bound propagations have lazy reasons
+    // wrapped by the reification, which the nogood database meets when it cleans up
+    let with_reified_element = g.rng.gen_bool(0.35);
+    let nl = g.rng.gen_range(if with_reified_element { 1 } else { 0 }..=2);
     for _ in 0..nl {
         let _ = g.add_lit();
     }
@@ -1273,6 +1341,144 @@ pub fn build_dense_model(g: &mut Gen, tier: &str) {
         let c = if g.rng.gen_bool(0.15) { g.wrap(c) } else { c };
         g.post(c, false);
     }
+    if with_reified_element {
+        let c = g.cons_of_kind("element");
+        let l = *g.lit_vars().choose(&mut g.rng).unwrap();
+        let r = if g.rng.gen_bool(0.5) { View::var(l) } else { View { v: l, s: -1, o: 1 } };
+        g.post(Cons::Imp { r, c: Box::new(c) }, false);       // (element cannot be negated / fully reified)
+    }
+}
+
+/// `dbclean` (C07): the learned-nogood database is cleaned constantly (limit 0-2, every nogood
+/// counts as high-LBD) while a half-reified element - the propagator whose reasons are lazy AND
+/// wrapped by a reification - takes part in the conflicts; all solutions are iterated.
+pub fn fam_dbclean(seed: u64, tier: &str, index: u64) -> Scenario {
+    let mut g = Gen::new(rng_for(seed, "dbclean", index), params(tier));
+    let idx = g.add_int_var_with(vec![0, 1, 2], false);
+    let mut vs = vec![];
+    for _ in 0..4 {
+        vs.push(g.add_int_var_with(vec![0, 1, 2, 3], false));
+    }
+    let l = g.add_lit();
+    vs.shuffle(&mut g.rng);
+    let elem = Cons::Element {
+        idx: View::var(idx),
+        xs: vec![View::var(vs[0]), View::var(vs[1]), View::var(vs[2])],
+        y: View::var(vs[3]),
+    };
+    let r = if g.rng.gen_bool(0.7) { View::var(l) } else { View { v: l, s: -1, o: 1 } };
+    g.post(Cons::Imp { r, c: Box::new(elem) }, false);
+    for _ in 0..g.rng.gen_range(2..=4) {
+        let all = g.int_vars();
+        let a = *all.choose(&mut g.rng).unwrap();
+        let b = *all.choose(&mut g.rng).unwrap();
+        if a == b {
+            continue;
+        }
+        let c = match g.rng.gen_range(0..3) {
+            0 => Cons::BinNe { a: View::var(a), b: View::var(b) },
+            1 => Cons::LinLe {
+                terms: vec![
+                    View { v: a, s: *[1, 2, -1].choose(&mut g.rng).unwrap(), o: 0 },
+                    View { v: b, s: *[1, -1, 2].choose(&mut g.rng).unwrap(), o: 0 },
+                ],
+                rhs: g.rng.gen_range(0..=4),
+            },
+            _ => Cons::LinNe {
+                terms: vec![View::var(a), View { v: b, s: *[1, -1].choose(&mut g.rng).unwrap(), o: 0 }],
+                rhs: g.rng.gen_range(0..=3),
+            },
+        };
+        g.post(c, false);
+    }
+    let br = if g.rng.gen_bool(0.5) {
+        BrSpec { kind: "default".into(), var: 0, val: 0 }
+    } else {
+        g.random_brancher()
+    };
+    g.steps.push(Step::Iterate { br, max: 100000, stop_at: None, resume: false });
+    let mut opts = Opts::default();
+    opts.minimise = g.rng.gen_bool(0.5);
+    opts.high_lbd_limit = g.rng.gen_range(0..=2);
+    opts.lbd_threshold = 0;
+    opts.sorting = if g.rng.gen_bool(0.5) { "lbd".into() } else { "activity".into() };
+    opts.seed = g.rng.gen_range(0..1000);
+    Scenario { fam: "dbclean".into(), id: index, opts, steps: g.steps, engine: false }
+}
+
+/// `branchers` (C18, C07): every variable selector x value selector (index-driven over the 11 x 14
+/// grid; plain, alternating with each strategy, dynamic) on models made for the selectors' state:
+/// a few FREE variables (negative values, holes, size-2 domains) listed first, then a tight
+/// pairwise-different core that forces conflicts, backjumps and - with eager restarts - restarts
+/// while the free variables are already fixed. One satisfy, engine events recorded.
+pub fn fam_branchers(seed: u64, tier: &str, index: u64) -> Scenario {
+    let mut g = Gen::new(rng_for(seed, "branchers", index), params(tier));
+    let nfree = g.rng.gen_range(2..=3);
+    let free_first = g.rng.gen_bool(0.5);
+    let add_free = |g: &mut Gen| -> Vec<u32> {
+        let mut out = vec![];
+        for _ in 0..nfree {
+            let w = g.rng.gen_range(2..=4);
+            let lo = g.rng.gen_range(-4..=1);
+            let mut vals: Vec<i32> = (lo..lo + w).collect();
+            let mut sparse = false;
+            if w >= 3 && g.rng.gen_bool(0.4) {
+                let _ = vals.remove(g.rng.gen_range(1..(w as usize - 1)));
+                sparse = true;
+            }
+            out.push(g.add_int_var_with(vals, sparse));
+        }
+        out
+    };
+    let mut free = vec![];
+    if free_first {
+        free = add_free(&mut g);
+    }
+    let ncore = g.rng.gen_range(3..=4);
+    let w = ncore - g.rng.gen_range(0..=1).min(if index % 3 == 0 { 1 } else { 0 });
+    let lo = g.rng.gen_range(-2..=1);
+    let core: Vec<u32> = (0..ncore).map(|_| g.add_int_var_with((lo..lo + w).collect(), false)).collect();
+    if !free_first {
+        free = add_free(&mut g);
+    }
+    for i in 0..core.len() {
+        for j in i + 1..core.len() {
+            g.post(Cons::BinNe { a: View::var(core[i]), b: View::var(core[j]) }, false);
+        }
+    }
+    // side constraints on the core (conflicts that propagation finds late) and a tie of one free
+    // variable to the core
+    let rhs = g.rng.gen_range(-1..=2);
+    g.post(
+        Cons::LinLe { terms: vec![View::var(free[nfree - 1]), View::var(core[0]), View { v: core[1], s: -1, o: 0 }], rhs },
+        false,
+    );
+    let rhs2 = 2 * lo + g.rng.gen_range(1..=3);
+    g.post(Cons::LinNe { terms: vec![View::var(core[1]), View::var(core[2])], rhs: rhs2 }, false);
+    if g.rng.gen_bool(0.5) {
+        let rhs3 = lo + g.rng.gen_range(0..=2);
+        g.post(Cons::LinLe { terms: vec![View::var(core[core.len() - 1]), View { v: core[0], s: -1, o: 0 }], rhs: rhs3 - lo }, false);
+    }
+    let var = (index % NUM_VAR_SEL as u64) as u8;
+    let val = ((index / NUM_VAR_SEL as u64) % NUM_VAL_SEL as u64) as u8;
+    let shape = (index / (NUM_VAR_SEL as u64 * NUM_VAL_SEL as u64)) % 4;
+    let br = match shape {
+        0 | 1 => BrSpec { kind: "indep".into(), var, val },
+        // alternating: every second one with the strategy that switches at restarts
+        2 => BrSpec { kind: "alt".into(), var, val: (val % 14) * 4 + if index % 2 == 0 { 0 } else { (index % 4) as u8 } },
+        _ => BrSpec { kind: "dyn".into(), var, val },
+    };
+    g.steps.push(Step::Satisfy { br, stop_at: None });
+    let mut opts = Opts::default();
+    if g.rng.gen_bool(0.6) || shape == 2 {
+        // eager restarts: a restart is considered after every conflict
+        opts.restart = ["const", "luby", "geom"][g.rng.gen_range(0..3)].into();
+        opts.restart_base = g.rng.gen_range(1..=2);
+        opts.restart_min_conflicts = 0;
+    }
+    opts.seed = g.rng.gen_range(0..1000);
+    opts.minimise = g.rng.gen_bool(0.5);
+    Scenario { fam: "branchers".into(), id: index, opts, steps: g.steps, engine: true }
 }
 
 pub const CONFIGS_PER_MODEL: u64 = 8;
@@ -1571,6 +1777,8 @@ pub fn generate(fam: &str, seed: u64, tier: &str, index: u64) -> Scenario {
         "exh_kind" => fam_exh_kind(seed, tier, index),
         "big" => crate::big::fam_big(seed, tier, index),
         "reif2" => fam_reif2(seed, tier, index),
+        "branchers" => fam_branchers(seed, tier, index),
+        "dbclean" => fam_dbclean(seed, tier, index),
         "proof" => fam_proof(seed, tier, index),
         "cumulative2" => fam_cumulative2(seed, tier, index),
         "rootbounds" => fam_rootbounds(seed, tier, index),
